@@ -144,6 +144,45 @@ def gen_rounds(seed, tier, run):
             name, _, rest = call.partition(" ")
             empties.append(f"{name}@{ty} " + rest.replace("{a}", arr(sh)))
     run(sorted(set(empties)))
+    # public operations WITHOUT a model: only the well-formedness of what they return is judged (monitor-only calls)
+    mon = []
+    M = lambda name, ty, rest: mon.append(f"mon@{ty} s{hexs(name)} {rest}")
+    for sh in list(shapes(3, 3)) + [[0], [2, 0], [7], [2, 5], [3, 1, 4]]:
+        n = len(sh)
+        for ty in ("i32", "f64"):
+            a = arr(sh, [rng.randint(-5, 9) for _ in range(prod(sh))])
+            for k in (0, 1, 2, 4):
+                for ax in [None] + list(range(-n, n)) + [n]:
+                    M("diff", ty, f"{a} {z(k)} {opt(ax)} n n")
+            M("diff", ty, f"{a} z1 n {arr([2], [7, 8])} {arr([1], [9])}")
+            if n >= 1:
+                M("diff", ty, f"{a} z1 z0 {arr([1] + sh[1:], [1] * prod(sh[1:]))} n")
+            M("ediff1d", ty, f"{a} n n")
+            M("ediff1d", ty, f"{a} {arr([2], [1, 2])} {arr([1], [3])}")
+            M("clip", ty, f"{a} {arr([1], [0])} {arr([1], [4])}")
+            M("clip", ty, f"{a} n {arr(sh[-1:], [3] * sh[-1])}")
+            M("clip", ty, f"{a} {arr([2], [0, 1])} n")
+            M("clip", ty, f"{a} n n")
+            for lo, hi in ((0, 0), (0, 1), (1, 3), (0, sh[0]), (2, 1), (0, sh[0] + 2), (sh[0], sh[0])):
+                M("slice", ty, f"{a} {z(lo)} {z(hi)}")
+            tot = prod(sh)
+            M("indices_at", ty, f"{a} {lst([0] if tot else [])}")
+            M("indices_at", ty, f"{a} {lst([tot - 1, 0, 0] if tot else [0])}")
+            M("indices_at", ty, f"{a} {lst([tot])}")
+            M("modf", ty, a); M("divmod", ty, a); M("nan_to_num", ty, a)
+            for b in ([1], [2], [3], [2, 2], [0]):
+                for mode in ("n", "s" + hexs("full"), "s" + hexs("valid"), "s" + hexs("same"), "s" + hexs("nope")):
+                    if n == 1 or rng.random() < 0.15:
+                        M("convolve", ty, f"{a} {arr(b, [1] * prod(b))} {mode}")
+        af = arr(sh, [rng.randint(-5, 9) for _ in range(prod(sh))])
+        M("sinc", "f64", af); M("i0", "f64", af)
+        for ax in [None] + list(range(-n, n)):
+            M("unwrap_phase", "f64", f"{af} {opt(ax)}")
+    for sh in ([2, 2], [3, 3], [1, 1], [2, 3], [2, 2, 2], [4], [0]):
+        for _ in range(3):
+            M("eig", "f64", arr(sh, [rng.randint(-4, 4) for _ in range(prod(sh))]))
+            M("eigvals", "f64", arr(sh, [rng.randint(-4, 4) for _ in range(prod(sh))]))
+    run(sorted(set(mon)))
     # surface sweep
     per = 250 if tier == "quick" else 3000
     sweep = []
